@@ -1,4 +1,4 @@
-import EphVerif.Lemmas.C17Base64
+import EphVerif.Lemmas.C18Base64
 import EphVerif.Lemmas.C17Wire
 
 /-! Helper lemmas for C18: every reader of the decoder answers `ok` or `invalidArg`
